@@ -135,7 +135,8 @@ def parse_race_logs(cwd):
             harness_setter = any(t.split(".")[-1] in UNSAFE_GLOBAL_SETTERS for t in tops)
             harness_frames = any(any(f.startswith("verifharness/") for f in st[:1]) for st in stacks[:2])
             key = "C14:race:" + "|".join(sorted(re.sub(r"^github.com/henrylee2cn/", "", t) for t in tops))
-            reports.append({"key": key, "tops": tops, "framework": fw and not harness_setter and not harness_frames, "text": block.strip()[:6000]})
+            reports.append({"key": key, "tops": tops, "framework": fw and not harness_setter and not harness_frames, "text": block.strip()[:6000],
+                            "stacks": [list(st) for st in stacks[:2]]})
     return reports
 
 
@@ -258,6 +259,26 @@ def load_known_keys():
         return {e["key"] for e in d.get("entries", []) if e.get("kind") == "known"}
     except (OSError, ValueError):
         return set()
+
+
+def load_known_race_sites():
+    """Known findings about one racing site: entries with "race_site": [substr, ...]. A report
+    belongs to such a finding when one of its two stacks contains every substring (the site is
+    the specific call path that fails; any other race is still a violation)."""
+    try:
+        d = json.load(open(KNOWN))
+        return [(e["key"], e["race_site"]) for e in d.get("entries", []) if e.get("kind") == "known" and e.get("race_site")]
+    except (OSError, ValueError):
+        return []
+
+
+def race_site_key(rep, sites):
+    for key, subs in sites:
+        for st in rep.get("stacks") or []:
+            joined = "\n".join(st)
+            if all(x in joined for x in subs):
+                return key
+    return None
 
 
 def merge_stats(paths):
@@ -457,9 +478,13 @@ def main():
     # data-race reports (C14): a report counts when both accesses are in framework code
     race_viol, race_known, race_infra = [], [], []
     known_keys = load_known_keys()
+    known_sites = load_known_race_sites()
     for r in results:
         for rep in r.get("race") or []:
-            if not rep["framework"]:
+            if race_site_key(rep, known_sites):
+                rep = dict(rep, key=race_site_key(rep, known_sites))
+                race_known.append(rep)
+            elif not rep["framework"]:
                 race_infra.append(rep)
             elif rep["key"] in known_keys:
                 race_known.append(rep)
